@@ -204,7 +204,7 @@ Proof.
       * rewrite (Hind g0 (or_introl eq_refl)).
         assert (g_id g =? g_id g0 = false) as -> by (apply Z.eqb_neq; apply Hne; auto).
         cbn [b2z]. assert (zsum (map (fun g => b2z (s (X c (g_id g)))) l) = 1); [|lia].
-        apply IH. exists g. split; auto.
+        apply IH. exists g. split; auto. intros g' Hg'. apply Hind. now right.
 Qed.
 
 Lemma find_of_indicator (X : Z -> Z -> lvar) l s c g :
